@@ -25,8 +25,17 @@ Match objects the real visitor built; and whenever the hypotheses of
 `C20_partial` hold for a pair (decided by the driver) the real outcomes of the
 pair must coincide, as the theorem predicts.
 
+Histories and configurations: every case is observed in a *fresh process* (fork), so
+that the only meta-models constructed before the one under test are those the case
+lists itself ("history": built and used earlier, "later": built after it and before
+its texts are parsed) - the same grammar or a grammar sharing its literals, with
+ignore_case / autokwd flipped.  Grammars may be split over files (import).  String
+literals cover both quote styles, escape sequences and non keyword-like spellings.
+
 Known finding: base type BOOL is compiled once, case-sensitively.
 """
+import copy as _copy
+import os as _os
 import re as _re
 
 from harness.core import Check, Rng, use_repo
@@ -53,8 +62,16 @@ RES20 = [
     (r"[^\s\d,;()]+", ["Zz", "p.q", "ab"]),
     (r"é+t", ["ét", "éét"]),
 ]
+RES20 += [
+    (r"[a-c]\/[x-z]", ["a/x", "b/z"]),          # escaped slash inside a regex literal
+    (r"\\[a-z]+", ["\\begin", "\\it"]),        # backslash + letters
+    (r"end\.|fin", ["end.", "fin"]),
+    (r"(?:übel|ça)!?", ["übel", "ça", "ça!"]),
+]
 RES20_D = dict(RES20)
 KEYWORDS20 = ["If", "END", "begin", "Kw", "Not", "x", "ab", "a", "B", "true", "False", "Für", "été", "no"]
+LETTERS = "abcdefghijklmnopqrstuvwxyz"
+NONASCII = "éäüç"
 SYMBOLS = ["+", ",", ";", "(", ")", "=", "->", "::"]
 CFGS = [{}, {}, {}, {"skipws": False}, {"ws": " "}, {"ws": " \t\n"}]
 BASE_NAMES = ("ID", "BOOL", "INT", "FLOAT", "STRICTFLOAT", "STRING")
@@ -82,6 +99,80 @@ def restyle(s, rng):
     return s
 
 
+def rand_word(rng, lo=1, hi=6):
+    """a keyword-like word over a large vocabulary (letters, inner digits / underscores, some non-ASCII letters)"""
+    n = rng.randint(lo, hi)
+    cs = [rng.choice(LETTERS) for _ in range(n)]
+    if n > 1 and rng.chance(0.2):
+        cs[rng.randint(1, n - 1)] = rng.choice("0123456789_")
+    if rng.chance(0.1):
+        cs[rng.below(n)] = rng.choice(NONASCII)
+    if rng.chance(0.05):
+        cs.insert(0, "_")
+    return "".join(cs)
+
+
+def keyword(rng):
+    return restyle(rng.choice(KEYWORDS20) if rng.chance(0.45) else rand_word(rng), rng)
+
+
+def odd_literal(rng):
+    """a string literal with letters that is *not* keyword-like: needs an escape sequence and / or contains
+    punctuation, quotes, blanks, a leading digit (never a leading / trailing blank, never a trailing backslash)"""
+    w, v = rand_word(rng, 1, 5), rand_word(rng, 1, 3)
+    form = rng.choice(["\\{w}", "{w}'s", '"{w}"', "{w}.", "#{w}", "{w}-{v}", "7{w}", "{w} {v}", "{w}\t{v}", "@{w}",
+                       "{w}::", "<{w}>", "{w}/{v}", "{w}\\{v}", "'{w}'", "\\{w}{{", "{w}\n{v}", "{w}\"{v}'"])
+    return restyle(form.replace("{w}", w).replace("{v}", v).replace("{{", "{"), rng)
+
+
+def literal(rng, p_kw=0.65):
+    return keyword(rng) if rng.chance(p_kw) else odd_literal(rng)
+
+
+def q20(s, rng):
+    """one of the many ways to write the string literal `s` in a textX grammar: either quote, the mandatory
+    escapes, optional escapes of the other quote, and numeric escapes (\\xNN, \\uNNNN, \\UNNNNNNNN, octal) of any
+    character"""
+    quote = rng.choice(["'", "'", '"'])
+    esc = rng.weighted([("min", 6), ("some", 3), ("all", 1)])
+    out = []
+    for c in s:
+        if c == "\\":
+            out.append("\\\\")
+        elif c == quote:
+            out.append("\\" + c)
+        elif c == "\n":
+            out.append("\\n")
+        elif c == "\t":
+            out.append("\\t")
+        elif c in "'\"" and rng.chance(0.3):
+            out.append("\\" + c)
+        elif esc != "min" and (esc == "all" or rng.chance(0.35)):
+            n = ord(c)
+            form = rng.choice(["x", "u", "U", "o"] if n < 256 else ["u", "U"])
+            out.append({"x": "\\x%02x", "u": "\\u%04x", "U": "\\U%08x", "o": "\\%03o"}[form] % n)
+        else:
+            out.append(c)
+    return quote + "".join(out) + quote
+
+
+def render_grammar20(g, rng):
+    """G.render_grammar with every string literal written by q20 (quote style, escape sequences)"""
+    g2 = _copy.deepcopy(g)
+    table = []
+
+    def f(e):
+        if e["k"] == "str":
+            table.append(e["v"])
+            e["v"] = f"\u00a7{len(table) - 1}\u00a7"
+    for r in g2["rules"]:
+        walk_ast(r["body"], f)
+    text = G.render_grammar(g2)
+    for i, v in enumerate(table):
+        text = text.replace(G.q(f"\u00a7{i}\u00a7"), q20(v, rng.fork(i)), 1)
+    return text
+
+
 def walk_ast(e, f):
     """apply f to every expression node (pre-order)"""
     f(e)
@@ -97,8 +188,10 @@ def relit(g, rng):
     def f(e):
         if e["k"] == "str":
             if e["v"] in SYMBOLS or e["v"] in (",", ";", "::"):
+                if rng.chance(0.12):  # word / mixed separators and punctuation
+                    e["v"] = literal(rng, 0.5)
                 return
-            e["v"] = restyle(rng.choice(KEYWORDS20), rng) if rng.chance(0.7) else e["v"]
+            e["v"] = literal(rng) if rng.chance(0.7) else e["v"]
         elif e["k"] == "re":
             e["v"] = rng.choice(RES20)[0]
     for r in g["rules"]:
@@ -219,10 +312,11 @@ def sentences20(g, rng, n_derived, n_mutated):
 
 def link_grammar(rng):
     """definitions and references through ID (reference targets must survive the variation)"""
-    kw = [restyle(rng.choice(KEYWORDS20), rng) for _ in range(4)]
+    kw = [literal(rng, 0.75) for _ in range(4)]
     rx = rng.choice([r"[a-c]+", r"kw[0-9]?", r"[A-F0-9]+h", r"v\d+(\.\d+)?"])
-    gtext = (f"Model: {G.q(kw[0])} defs+=Def[','] {G.q(kw[1])} uses+=Use;\n"
-             f"Def: {G.q(kw[2])} name=ID (tag=/{rx}/)?;\nUse: {G.q(kw[3])} ref=[Def] | {G.q(kw[3])} '(' ref=[Def] ')';\n")
+    qs = [q20(k, rng.fork(("q", i))) for i, k in enumerate(kw)]
+    gtext = (f"Model: {qs[0]} defs+=Def[','] {qs[1]} uses+=Use;\n"
+             f"Def: {qs[2]} name=ID (tag=/{rx}/)?;\nUse: {qs[3]} ref=[Def] | {q20(kw[3], rng.fork('q4'))} '(' ref=[Def] ')';\n")
     names = rng.sample(["foo", "Bar", "x1", "Y", "zed"], rng.randint(1, 3))
     toks = [restyle(kw[0], rng)]
     for i, n in enumerate(names):
@@ -235,7 +329,9 @@ def link_grammar(rng):
     for _ in range(rng.randint(1, 3)):
         n = rng.choice(names)
         toks += [restyle(kw[3], rng)] + (["(", n, ")"] if rng.chance(0.3) else [n])
-    texts = [" ".join(toks), " ".join(toks).replace(names[0], names[0].swapcase(), 1)]
+    texts = [" ".join(toks)]
+    i0 = toks.index(names[0])  # a wrong-case reference target must stay unresolved (names keep their case)
+    texts.append(" ".join(toks[:i0] + [names[0].swapcase()] + toks[i0 + 1:]))
     lits = [{"k": "str", "v": k} for k in kw] + [{"k": "str", "v": ","}, {"k": "re", "v": rx},
                                                    {"k": "str", "v": "("}, {"k": "str", "v": ")"}]
     return gtext, texts, lits, {"Def": {"name": "id", "tag": "text"}}
@@ -243,8 +339,17 @@ def link_grammar(rng):
 
 def simple_grammar(rng):
     """one keyword, one regex literal, one ID: every literal path with high yield"""
-    kw = restyle(rng.choice(KEYWORDS20), rng)
-    kw2 = restyle(rng.choice(KEYWORDS20), rng)
+    kw = literal(rng)
+    kw2 = literal(rng)
+
+    class _Q:  # G.q replaced by the many spellings of q20 (a fresh one at every occurrence)
+        n = 0
+
+        @classmethod
+        def q(cls, v):
+            cls.n += 1
+            return q20(v, rng.fork(("q", cls.n)))
+    G = _Q
     rx, samples = rng.choice([r for r in RES20 if r[0] != r"q?"])
     sepre = rng.choice([r"and", r"[xy]"])
     form = rng.below(5)
@@ -277,8 +382,62 @@ def simple_grammar(rng):
     toks = [restyle(t, rng) if t in (kw, kw2) or t in samples else t for t in toks]
     texts = [" ".join(toks)]
     if rng.chance(0.5):
-        texts.append(" ".join(G.mutate(toks, rng)))
+        from harness import gen_grammar
+        texts.append(" ".join(gen_grammar.mutate(toks, rng)))
     return gtext, texts, [{"k": k, "v": v} for k, v in lits], textual
+
+
+def split_files(gtext):
+    """the same language as a main grammar importing the rest of its rules from a second file (None if there is
+    only one rule); the templates write one rule per line"""
+    lines = [l for l in gtext.strip().split("\n") if l.strip()]
+    if len(lines) < 2:
+        return None
+    return "import base\n" + lines[0] + "\n", {"base.tx": "\n".join(lines[1:]) + "\n"}
+
+
+def vocabulary_grammar(lits, rng):
+    """another language built from (some of) the same literals"""
+    ls = rng.sample(lits, min(len(lits), rng.randint(1, 4))) if lits else []
+    alts = [q20(l["v"], rng.fork(i)) if l["k"] == "str" else "/" + l["v"] + "/" for i, l in enumerate(ls)
+            if l["v"] != "" and l["v"] != "q?"]
+    ls = [l for l in ls if l["v"] != "" and l["v"] != "q?"]
+    if not alts:
+        return None
+    form = rng.below(3)
+    if form == 0:
+        g = "Voc: ws+=W;\nW: " + " | ".join(alts) + " | INT;\n"
+    elif form == 1:
+        g = "Voc: " + " ".join(f"({a})?" for a in alts) + " n=INT;\n"
+    else:
+        g = "Voc: items+=Item;\nItem: " + " | ".join(f"{a} name=ID" for a in alts) + ";\n"
+    return g, ls
+
+
+def add_history(case, rng):
+    """meta-models constructed (and used) in the same process before / after the one under test: the same
+    grammar or a grammar with the same literals, with the ignore_case / autokwd configuration varied"""
+    def entry(r):
+        cfg = dict(case["cfg"])
+        kind = r.weighted([("flip_ic", 6), ("flip_kwd", 2), ("both", 1), ("same", 1)])
+        if kind in ("flip_ic", "both"):
+            cfg["ignore_case"] = not cfg.get("ignore_case")
+        if kind in ("flip_kwd", "both"):
+            cfg["autokwd"] = not cfg.get("autokwd")
+        e = {"cfg": cfg, "texts": list(case["texts"][:1])}
+        if r.chance(0.3):
+            vg = vocabulary_grammar(case.get("lits") or [], r.fork("voc"))
+            if vg:
+                e["grammar"], e["lits"] = vg
+                e["texts"] = [" ".join(l["v"] if l["k"] == "str" else (RES20_D.get(l["v"]) or ["x"])[0]
+                                       for l in vg[1]) + " 1 a"]
+        return e
+    where = rng.weighted([("before", 6), ("after", 2), ("both", 2)])
+    if where in ("before", "both"):
+        case["history"] = [entry(rng.fork(("h", i))) for i in range(rng.randint(1, 2))]
+    if where in ("after", "both"):
+        case["later"] = [entry(rng.fork("l"))]
+    return case
 
 
 # ---- running the real code ---------------------------------------------------
@@ -348,20 +507,86 @@ def base_objs():
     return [getattr(L, n) for n in BASE_NAMES]
 
 
+def match_kind(e):
+    """what a terminal expression is, by behaviour rather than by class name: "str" (StrMatch and subclasses),
+    "re" (a RegExMatch whose value is the matched text), "kw" (a regex-matched terminal that carries a literal of its
+    own, textX's KeywordMatch: value claimed to be that literal - the claim is checked against the real terminal
+    values), None (not a Match)"""
+    use_repo()
+    import arpeggio as A
+
+    if isinstance(e, A.StrMatch):
+        return "str"
+    if isinstance(e, A.RegExMatch):
+        return "re" if type(e) is A.RegExMatch or e.to_match == e.to_match_regex else "kw"
+    return "other" if isinstance(e, A.Match) else None
+
+
+def dump_parser20(parser):
+    """peg.dump_parser, with Match subclasses the shared bridge does not know by name (KeywordMatch) classified by
+    behaviour (the bridge module itself is shared with other properties and left alone)"""
+    seen, extra = set(), {}
+
+    def visit(e):
+        if id(e) in seen:
+            return
+        seen.add(id(e))
+        n = type(e).__name__
+        if n not in peg.KIND and match_kind(e) in ("str", "re", "kw"):
+            extra[n] = "str" if match_kind(e) == "str" else "re"
+        for c in getattr(e, "nodes", None) or []:
+            visit(c)
+        if getattr(e, "sep", None) is not None:
+            visit(e.sep)
+
+    visit(parser.parser_model)
+    if parser.comments_model is not None:
+        visit(parser.comments_model)
+    old = peg.KIND
+    peg.KIND = dict(old, **extra)
+    try:
+        return peg.dump_parser(parser)
+    finally:
+        peg.KIND = old
+
+
+def collect_exprs(parser):
+    """fallback when the parser model has something the mirror cannot take: all expressions, Match nodes tagged, so
+    that the real parses and the direct oracle still run (no Lean request)"""
+    seen, objs = set(), []
+
+    def visit(e):
+        if id(e) in seen:
+            return
+        seen.add(id(e))
+        objs.append(e)
+        for c in getattr(e, "nodes", None) or []:
+            visit(c)
+        if getattr(e, "sep", None) is not None:
+            visit(e.sep)
+
+    visit(parser.parser_model)
+    if parser.comments_model is not None:
+        visit(parser.comments_model)
+    nodes = [{"k": {"str": "str", "re": "re", "kw": "re", "other": "re"}.get(match_kind(e), "x")} for e in objs]
+    return nodes, objs
+
+
 def tok_specs(nodes, objs):
     out = []
     for nd, e in zip(nodes, objs):
         if nd["k"] == "str":
             out.append({"k": "str", "lit": e.to_match, "ic": bool(e.ignore_case)})
         elif nd["k"] == "re":
-            out.append({"k": "re"})
+            out.append({"k": "kw", "lit": e.to_match} if match_kind(e) == "kw" else {"k": "re"})
         else:
             out.append({"k": "other"})
     return out
 
 
 def match_objs(nodes, objs):
-    """descriptors of the Match objects built from grammar literals (base types and EOF excluded)"""
+    """descriptors of the Match objects built from grammar literals (base types and EOF excluded); for regex-based
+    ones the flag is that of the *compiled* object they match with"""
     base = base_objs()
     out = []
     for nd, e in zip(nodes, objs):
@@ -370,14 +595,198 @@ def match_objs(nodes, objs):
         if nd["k"] == "str":
             out.append(["str", e.to_match, bool(e.ignore_case)])
         elif nd["k"] == "re":
-            out.append(["re", e.to_match_regex, bool(e.regex.flags & _re.IGNORECASE)])
+            ic = bool(e.regex.flags & _re.IGNORECASE)
+            if match_kind(e) == "kw":
+                out.append(["kw", e.to_match, e.to_match_regex, ic])
+            else:
+                out.append(["re", e.to_match_regex, ic])
     return out
 
 
-def run_one(mm, nodes, objs, text):
+def build_mm(grammar, files, cfg, tmp):
+    """the meta-model of a (possibly multi-file) grammar -> outcome"""
+    use_repo()
+    from textx import metamodel_from_file, metamodel_from_str
+
+    if not files:
+        return outcome(lambda: metamodel_from_str(grammar, **cfg))
+    import tempfile
+
+    d = tempfile.mkdtemp(prefix="g", dir=tmp)
+    for name, text in list(files.items()) + [("main.tx", grammar)]:
+        with open(_os.path.join(d, name), "w", encoding="utf-8") as f:
+            f.write(text)
+    return outcome(lambda: metamodel_from_file(_os.path.join(d, "main.tx"), **cfg))
+
+
+def observe_side(entry, case, tmp, keep):
+    """a meta-model of the case's history: construct it, note what its literals were compiled to, use it"""
+    own = entry.get("grammar")
+    o = build_mm(own or case["grammar"], None if own else case.get("files"), entry["cfg"], tmp)
+    if "ok" not in o:
+        return {"grammar_error": o}
+    mm = o["ok"]
+    keep.append(mm)
+    rec = {}
+    try:
+        nodes, _top, _c, objs = dump_parser20(mm._parser_blueprint.clone())
+        rec["matchobjs"] = match_objs(nodes, objs)
+    except peg.Unsupported as e:
+        rec["nomirror"] = str(e)
+    rec["loads"] = []
+    for t in entry.get("texts", []):
+        r = limited(lambda: outcome(lambda: mm.model_from_str(t)), 5)
+        rec["loads"].append("ok" if "ok" in r else "err" if "err" in r else str(r.get("other")))
+    return rec
+
+
+_PRISTINE = None
+
+
+_PLAIN = (int, bool, str, float, type(None), tuple, frozenset, bytes)
+
+
+def _state_cells():
+    """(owner, owner name, attribute, value) for every module-level and class-level attribute of the textX and
+    Arpeggio modules that holds plain data (dict / list / set, numbers, strings, tuples, None) or a functools cache"""
+    import sys as _sys
+
+    out = []
+    for mname, mod in sorted(_sys.modules.items()):
+        if mod is None or not (mname == "textx" or mname.startswith("textx.") or mname == "arpeggio"
+                               or mname.startswith("arpeggio.")):
+            continue
+        for k, v in list(vars(mod).items()):
+            if k.startswith("__"):
+                continue
+            if type(v) in (dict, list, set) or type(v) in _PLAIN or (
+                    hasattr(v, "cache_clear") and getattr(v, "__module__", None) == mname):
+                out.append((mod, mname, k, v))
+            elif isinstance(v, type) and getattr(v, "__module__", None) == mname:
+                for ck, cv in list(vars(v).items()):
+                    if not ck.startswith("__") and (type(cv) in (dict, list, set) or type(cv) in _PLAIN):
+                        out.append((v, f"{mname}.{v.__name__}", ck, cv))
+    return out
+
+
+def reset_process_state():
+    """Bring the process-wide state that survives a meta-model back to what it was when the code under test had
+    just been imported: the regex cache of `re`, every module-level / class-level container of the textX and Arpeggio
+    modules (contents restored in place; plain values rebound; attributes created later are left alone), functools
+    caches.  A case is then observed after exactly the history it lists itself: what earlier
+    cases of the same worker process left behind neither masks nor fakes a failure, and a replay (fresh process)
+    sees what the run saw.  (`VERIF_C20_FORK=1` runs every case in a forked child instead - the same guarantee for
+    any kind of state, at a few hundred milliseconds per case.)"""
+    global _PRISTINE
+    use_repo()
+    import arpeggio  # noqa: F401
+    import textx  # noqa: F401
+    import textx.lang  # noqa: F401
+    import textx.metamodel  # noqa: F401
+    import textx.model  # noqa: F401
+    import textx.scoping  # noqa: F401
+
+    _re.purge()
+    if _PRISTINE is None:
+        import importlib
+        import pkgutil
+
+        for pkg in (textx, arpeggio):  # modules imported lazily later must be part of the picture
+            for m in pkgutil.walk_packages(pkg.__path__, pkg.__name__ + "."):
+                if ".cli" in m.name or "tests" in m.name:
+                    continue
+                try:
+                    importlib.import_module(m.name)
+                except Exception:
+                    pass
+    cells = _state_cells()
+    if _PRISTINE is None:
+        _PRISTINE = {}
+        for owner, oname, k, v in cells:
+            if not hasattr(v, "cache_clear"):
+                _PRISTINE[(oname, k)] = (v, _copy.copy(v))
+        return
+    for owner, oname, k, v in cells:
+        if hasattr(v, "cache_clear"):
+            v.cache_clear()
+            continue
+        ref = _PRISTINE.get((oname, k))
+        if ref is None:
+            continue
+        saved = ref[1]
+        if type(saved) in _PLAIN:
+            if type(v) is not type(saved) or v != saved:
+                setattr(owner, k, saved)
+            continue
+        if ref[0] is not v or v == saved:
+            continue
+        if type(v) is list:
+            v[:] = saved
+        else:
+            v.clear()
+            v.update(saved)
+
+
+def run_forked(fn):
+    """fn() in a forked child -> its (picklable) value.  Every case starts from the same pristine process state: the
+    only meta-models that exist before the one under test are those the case itself constructs (module-level state of
+    textX / Arpeggio / re filled by earlier cases of the same worker neither masks nor fakes a failure, and a replay
+    sees exactly what the run saw)."""
+    import pickle
+    import signal
+    import shutil  # noqa: F401  (everything the child needs is imported before the fork: importing is not history)
+    import tempfile  # noqa: F401
+    import traceback  # noqa: F401
+
+    use_repo()
+    import arpeggio  # noqa: F401
+    import textx  # noqa: F401
+    import textx.lang  # noqa: F401
+    import textx.exceptions  # noqa: F401
+
+    r, w = _os.pipe()
+    pid = _os.fork()
+    if pid == 0:
+        code = 1
+        try:
+            _os.close(r)
+            signal.alarm(0)
+            try:
+                data = pickle.dumps(("ok", fn()))
+            except BaseException as e:  # reported by the parent as a crash of the implementation harness
+                import traceback
+
+                data = pickle.dumps(("exc", f"{type(e).__name__}: {e}", traceback.format_exc()[-1500:]))
+            with _os.fdopen(w, "wb") as f:
+                f.write(data)
+            code = 0
+        finally:
+            _os._exit(code)
+    _os.close(w)
+    try:
+        with _os.fdopen(r, "rb") as f:
+            data = f.read()
+        _, status = _os.waitpid(pid, 0)
+        pid = None
+    finally:
+        if pid is not None:  # the runner's per-case alarm fired while waiting: the child must not linger
+            try:
+                _os.kill(pid, signal.SIGKILL)
+                _os.waitpid(pid, 0)
+            except OSError:
+                pass
+    if not data:
+        raise RuntimeError(f"the process running the case died (wait status {status})")
+    res = pickle.loads(data)
+    if res[0] == "exc":
+        raise RuntimeError(res[1] + "\n" + res[2])
+    return res[1]
+
+
+def run_one(mm, nodes, objs, text, mirror=True):
     """parse + load one text on the real code"""
     use_repo()
-    from arpeggio import NoMatch, NonTerminal, Terminal
+    from arpeggio import Match, NoMatch, NonTerminal, Terminal
     from textx.exceptions import TextXSyntaxError
 
     d = {"text": text}
@@ -406,7 +815,7 @@ def run_one(mm, nodes, objs, text):
         d["parse"] = r
         tree = None
     if tree is not None:
-        tj = peg.tree_json(tree, ids)
+        tj = peg.tree_json(tree, ids) if mirror else None
         vals, spans = [], []
 
         def fix(t, node):
@@ -421,14 +830,15 @@ def run_one(mm, nodes, objs, text):
             if isinstance(node, Terminal):
                 vals.append(node.value)
                 rule = node.rule
-                lit = type(rule).__name__ in ("StrMatch", "RegExMatch") and not any(rule is b for b in base)
+                lit = isinstance(rule, Match) and match_kind(rule) != "other" and not any(rule is b for b in base)
                 if lit and len(node.value):
                     spans.append([node.position, node.position + len(node.value)])
             elif isinstance(node, (NonTerminal, list)):
                 for c in node:
                     leaves(c)
 
-        fix(tj, tree)
+        if mirror:
+            fix(tj, tree)
         leaves(tree)
         d["parse"] = {"ok": tj}
         d["vals"] = vals
@@ -589,6 +999,7 @@ class Prop(Check):
         "Peg.Case.C20_tok_str_exact",
         "Peg.Case.C20_tok",
         "Peg.Case.C20_compile_ignore_case",
+        "Peg.Case.C20_compile_history",
         "Peg.Case.C20_partial",
         "Peg.Case.C20_partial_tree",
         "Peg.Case.C20_values_keep_case",
@@ -601,17 +1012,30 @@ class Prop(Check):
     THOROUGH_CASES = 5000
     CASE_TIMEOUT = 90
     RULE = ("generated grammars (random: common/abstract/match rules, all operators, separators, eolterm, predicates, "
-            "suppression, rule modifiers, Comment rule, mixed-case keywords, regex literals with letters; targeted: "
-            "keyword/regex/separator/ID templates; definitions + references through ID) compiled with ignore_case=True x "
-            "autokwd / skipws / ws / memoization options x derived and mutated texts x up to 3 (quick) / 6 (thorough) case variants of "
-            "the literal-matched characters + 1 variant of arbitrary characters; non-trivial = an accepted text with at "
-            "least one variant differing in a character matched by a string or regex literal of the grammar")
-    MODELLED = ("hand-modelled: StrMatch._parse with ignore_case, Terminal.value, the flag choice of visit_str_match / "
-                "autokwd branch / visit_re_match (Peg/Case.lean) on top of the Arpeggio mirror (Peg/Arp.lean); tie X: mirror "
-                "outcome and terminal values vs real parser for every text and variant, Lean string rows vs real "
-                "StrMatch._parse at every position, compileLit vs the real Match objects, prediction of C20_partial vs "
-                "real outcomes; regex matching is an input table measured on the real `re` objects; model construction "
-                "from the parse tree is not modelled (observed by the oracle on the real code)")
+            "suppression, rule modifiers, Comment rule; string literals from a wide vocabulary: mixed-case keywords, random "
+            "words, non keyword-like spellings with punctuation / quotes / blanks / backslashes / leading digits, word "
+            "separators, written with either quote and with escape sequences (\\\\ \\' \\\" \\n \\t \\xNN \\uNNNN "
+            "\\UNNNNNNNN octal); regex literals with letters, escaped slashes, backslashes; targeted: keyword/regex/"
+            "separator/ID templates; definitions + references through ID; the templates also as multi-file grammars "
+            "(import)) compiled with ignore_case=True x autokwd / skipws / ws / memoization options x HISTORIES (28 % of the "
+            "cases: 1-2 meta-models constructed and used earlier in the same process and / or one constructed after the "
+            "meta-model under test and before its texts are parsed - the same grammar or another grammar with the same "
+            "literals, with ignore_case and / or autokwd flipped; every case starts from the process state of a fresh "
+            "import) x derived and mutated texts x up to 3 (quick) / 6 (thorough) case variants of the literal-matched "
+            "characters + 1 variant of arbitrary characters; non-trivial = an accepted text with at least one variant "
+            "differing in a character matched by a string or regex literal of the grammar")
+    MODELLED = ("hand-modelled: StrMatch._parse with ignore_case, Terminal.value (grammar literal for StrMatch and "
+                "KeywordMatch, matched text for RegExMatch), the class / flag choice of visit_str_match / autokwd branch / "
+                "visit_re_match and RegExMatch.compile through the process-wide regex cache, threaded through the case's "
+                "history of meta-model constructions (buildMM / buildAll, Peg/Case.lean) on top of the Arpeggio mirror "
+                "(Peg/Arp.lean); tie X: mirror outcome and terminal values vs real parser for every text and variant, Lean "
+                "string rows vs real StrMatch._parse at every position, buildMM vs the real Match objects (kind, pattern, "
+                "flags of the compiled regex object) of the meta-model under test and of every meta-model of its history, "
+                "prediction of C20_partial vs real outcomes; regex matching is an input table measured on the real `re` "
+                "objects; unescaping of string literals (decode_escapes) is not modelled (the generator knows the decoded "
+                "literal; tie through the Match objects and the parses); model construction from the parse tree is not "
+                "modelled (observed by the oracle on the real code); parser models the mirror cannot take are still parsed "
+                "and judged by the direct oracle (evidence: no_mirror_cases)")
     ASSUMPTIONS = [
         "re.IGNORECASE: a regex token compiled with the flag (and the case-closed base-type regexes ID, INT, FLOAT, "
         "STRICTFLOAT, STRING) matches the same lengths on texts equal up to letter case (hypothesis RxFoldInv of "
@@ -625,55 +1049,86 @@ class Prop(Check):
     def gen(self, rng, n, tier):
         for i in range(n):
             r = rng.fork(i)
-            stream = r.weighted([("random", 6), ("simple", 3), ("link", 1)])
+            # a third of the cases have a history of other meta-models in the same process; those lean towards the
+            # high-yield templates and towards autokwd (keyword literals are the ones compiled through shared state)
+            hist = r.chance(0.33)
+            stream = r.weighted([("random", 3), ("simple", 4), ("link", 2)] if hist else
+                                [("random", 6), ("simple", 3), ("link", 1)])
             cfg = dict(r.choice(CFGS))
             cfg["ignore_case"] = True if r.chance(0.93) else False
-            if r.chance(0.35):
+            if r.chance(0.55 if hist else 0.35):
                 cfg["autokwd"] = True
             if r.chance(0.25):
                 cfg["memoization"] = True
-            if stream == "random":
-                g = relit(G.GrammarGen(r, links=False).grammar(), r)
-                case = {"grammar": G.render_grammar(g), "cfg": cfg, "texts": sentences20(g, r, 2, 1),
-                        "lits": grammar_lits(g), "textual": textual_attrs(g)}
-            elif stream == "simple":
-                gtext, texts, lits, textual = simple_grammar(r)
-                case = {"grammar": gtext, "cfg": cfg, "texts": texts, "lits": lits, "textual": textual}
-            else:
-                gtext, texts, lits, textual = link_grammar(r)
-                case = {"grammar": gtext, "cfg": cfg, "texts": texts, "lits": lits, "textual": textual}
-            case["stream"] = stream
-            if tier != "quick" and stream == "simple" and r.chance(0.15):
-                case["exhaustive"] = True  # all 2^k variants when the text has k <= 6 literal-matched letters
-            case["vseed"] = r.next()
-            case["nvar"] = 3 if tier == "quick" else 6
-            yield case
+            yield self.make_case(r, stream, cfg, tier, p_history=1.0 if hist else 0.0)
+
+    @staticmethod
+    def make_case(r, stream, cfg, tier, p_history=0.3, p_files=0.3):
+        if stream == "random":
+            g = relit(G.GrammarGen(r, links=False).grammar(), r)
+            case = {"grammar": render_grammar20(g, r.fork("render")), "cfg": cfg, "texts": sentences20(g, r, 2, 1),
+                    "lits": grammar_lits(g), "textual": textual_attrs(g)}
+        else:
+            gtext, texts, lits, textual = simple_grammar(r) if stream == "simple" else link_grammar(r)
+            case = {"grammar": gtext, "cfg": cfg, "texts": texts, "lits": lits, "textual": textual}
+            if r.chance(p_files):  # the same language with its rules spread over files (import)
+                sp = split_files(gtext)
+                if sp:
+                    case["grammar"], case["files"] = sp
+        case["stream"] = stream
+        if tier != "quick" and stream == "simple" and r.chance(0.15):
+            case["exhaustive"] = True  # all 2^k variants when the text has k <= 6 literal-matched letters
+        case["vseed"] = r.next()
+        case["nvar"] = 3 if tier == "quick" else 6
+        if r.chance(p_history):
+            add_history(case, r.fork("history"))
+        return case
 
     # ---- implementation -------------------------------------------------------
     def impl(self, case):
+        if _os.environ.get("VERIF_C20_FORK"):
+            return run_forked(lambda: self._impl_guarded(case))
+        reset_process_state()
+        return self._impl_guarded(case)
+
+    def _impl_guarded(self, case):
+        import shutil
+        import tempfile
+
+        # grammar files of multi-file cases live in a temp dir outside the trees (only created when needed)
+        tmp = tempfile.mkdtemp(prefix="c20-", dir="/tmp") if case.get("files") else None
         try:
-            return self._impl(case)
+            return self._impl(case, tmp)
         except _Limit:
             # a nested limit fired outside its guarded region (heavy machine load): nothing observed, nothing claimed
             return {"aborted": True, "late_timeout": True}
+        finally:
+            if tmp:
+                shutil.rmtree(tmp, ignore_errors=True)
 
-    def _impl(self, case):
+    def _impl(self, case, tmp):
         use_repo()
-        from textx import metamodel_from_str
-
         cfg = case["cfg"]
-        o = outcome(lambda: metamodel_from_str(case["grammar"], **cfg))
+        keep = []  # every meta-model of the case stays alive until the end
+        hist = [observe_side(e, case, tmp, keep) for e in case.get("history", [])]
+        o = build_mm(case["grammar"], case.get("files"), cfg, tmp)
         if "ok" not in o:
-            return {"grammar_error": o}
+            return {"grammar_error": o, "hist": hist}
         mm = o["ok"]
+        later = [observe_side(e, case, tmp, keep) for e in case.get("later", [])]
+        p0 = mm._parser_blueprint.clone()
+        mirror = True
         try:
-            p0 = mm._parser_blueprint.clone()
-            nodes, top, comments, objs = peg.dump_parser(p0)
+            nodes, top, comments, objs = dump_parser20(p0)
+            res = {"nodes": nodes, "top": top, "comments": comments, "skipws": bool(p0.skipws), "ws": p0.ws,
+                   "memo": bool(p0.memoization), "toks": tok_specs(nodes, objs), "matchobjs": match_objs(nodes, objs),
+                   "groups": []}
         except peg.Unsupported as e:
-            return {"unsupported": str(e)}
-        res = {"nodes": nodes, "top": top, "comments": comments, "skipws": bool(p0.skipws), "ws": p0.ws,
-               "memo": bool(p0.memoization), "toks": tok_specs(nodes, objs), "matchobjs": match_objs(nodes, objs),
-               "groups": []}
+            # the mirror cannot take this parser model: the real parses and the direct oracle still run
+            mirror = False
+            nodes, objs = collect_exprs(p0)
+            res = {"nomirror": str(e), "groups": []}
+        res["hist"], res["later"] = hist, later
         rng = Rng(case.get("vseed", 0))
         textual = case.get("textual") or {}
         base = base_objs()
@@ -690,7 +1145,7 @@ class Prop(Check):
             if time.time() > deadline:
                 res["aborted"] = True
                 break
-            x = run_one(mm, nodes, objs, t)
+            x = run_one(mm, nodes, objs, t, mirror)
             grp = {"x": x, "ys": []}
             if timed_out(x):  # machine load (or a hanging implementation): do not pile up further waits
                 res["groups"].append(grp)
@@ -707,7 +1162,7 @@ class Prop(Check):
             if w is not None and all(w != y for y, _ in ys):
                 ys.append((w, True))
             for y, wild in ys:
-                d = run_one(mm, nodes, objs, y)
+                d = run_one(mm, nodes, objs, y, mirror)
                 d["wild"] = wild
                 if not wild and "ok" in x["load"]:
                     # a fixed corpus variant must stay inside the literal-matched spans to count for the property
@@ -724,11 +1179,12 @@ class Prop(Check):
                 old = B.regex
                 try:
                     B.regex = _re.compile(B.to_match_regex, old.flags | _re.IGNORECASE)
-                    x2 = run_one(mm, nodes, objs, t)
+                    x2 = run_one(mm, nodes, objs, t, mirror)
                     left = []
                     for d in fails:
-                        y2 = run_one(mm, nodes, objs, d["text"])
-                        f = pair_failure(x2, y2, textual) if "ok" in x2["load"] else "original rejected"
+                        y2 = run_one(mm, nodes, objs, d["text"], mirror)
+                        # (an original that BOOL-with-IGNORECASE rejects leaves no accepted text to vary: gone as well)
+                        f = pair_failure(x2, y2, textual) if "ok" in x2["load"] else None
                         if f:
                             left.append(f)
                     grp["bool_ci_left"] = left
@@ -739,8 +1195,16 @@ class Prop(Check):
         return res
 
     # ---- model ------------------------------------------------------------------
+    @staticmethod
+    def _cfgj(cfg):
+        return {"ic": bool(cfg.get("ignore_case")), "autokwd": bool(cfg.get("autokwd"))}
+
+    def _sides(self, case, key):
+        return [{"cfg": self._cfgj(e["cfg"]), "lits": e.get("lits") if e.get("grammar") else case.get("lits", [])}
+                for e in case.get(key, [])]
+
     def model_req(self, case, obs):
-        if "groups" not in obs:
+        if "groups" not in obs or "nomirror" in obs:
             return None
         extra = set()
         for grp in obs["groups"]:
@@ -751,14 +1215,14 @@ class Prop(Check):
         tab = sorted([c, c.lower()] for c in extra if len(c.lower()) == 1 and c.lower() != c)
         base = {"op": "c20", "nodes": obs["nodes"], "top": obs["top"], "comments": obs["comments"],
                 "memo": obs["memo"], "skipws": obs["skipws"], "ws": obs["ws"], "toks": obs["toks"], "tab": tab,
-                "lits": case.get("lits", []),
-                "cfg": {"ic": bool(case["cfg"].get("ignore_case")), "autokwd": bool(case["cfg"].get("autokwd"))}}
+                "lits": case.get("lits", []), "cfg": self._cfgj(case["cfg"]),
+                "history": self._sides(case, "history"), "later": self._sides(case, "later")}
         reqs = []
         for grp in obs["groups"]:
             inputs = []
             n = 0
             for d in [grp["x"]] + grp["ys"]:
-                rx = [r if obs["toks"][i]["k"] == "re" else None for i, r in enumerate(d["rows"])]
+                rx = [r if obs["toks"][i]["k"] in ("re", "kw") else None for i, r in enumerate(d["rows"])]
                 inputs.append({"text": d["text"], "rx": rx})
                 n = max(n, len(d["text"]))
             reqs.append({"inputs": inputs, "fuel": min(20000, 60 + 8 * (n + 2) * (len(obs["nodes"]) + 2))})
@@ -799,15 +1263,30 @@ class Prop(Check):
             if case["cfg"].get("ignore_case"):
                 for d in grp["ys"]:
                     for i, t in enumerate(obs["toks"]):
-                        if t["k"] == "re" and i not in obs["bool_nodes"] and d["rows"][i] != grp["x"]["rows"][i]:
+                        if t["k"] in ("re", "kw") and i not in obs["bool_nodes"] and d["rows"][i] != grp["x"]["rows"][i]:
                             return (f"assumption RxFoldInv fails for regex token {i} ({obs['nodes'][i].get('rule')!r}): "
                                     f"rows differ on {grp['x']['text']!r} / {d['text']!r}")
-            # what the visitor built vs compileLit (flags and kinds; spelling up to case)
-            if case.get("lits") is not None and "lits" in case:
-                exp = {(c["k"], c["v"].lower(), c["ic"]) for c in o["compiled"]}
-                for k, v, ic in obs["matchobjs"]:
-                    if (k, v.lower(), ic) not in exp:
-                        return f"Match object {(k, v, ic)} is not what compileLit yields for the grammar's literals"
+            # what the visitor built vs buildMM (kinds, and the flags the objects really match with; spelling up to
+            # case) - for the meta-model under test and for every other meta-model of the case's history
+            if "lits" in case:
+                sides = [("", obs, o["compiled"])]
+                for key, ckey in (("hist", "hist_compiled"), ("later", "later_compiled")):
+                    for n, (rec, comp) in enumerate(zip(obs.get(key, []), o.get(ckey, []))):
+                        sides.append((f"{key}[{n}] ", rec, comp))
+                for tag, rec, comp in sides:
+                    if "matchobjs" not in rec:
+                        continue
+                    exp = set()
+                    for c in comp:
+                        if c["k"] == "kw":
+                            exp.add(("kw", c["v"].lower(), c["pat"].lower(), c["ic"]))
+                        else:
+                            exp.add((c["k"], c["v"].lower(), c["ic"]))
+                    for m in rec["matchobjs"]:
+                        key_ = tuple(x.lower() if isinstance(x, str) else x for x in m)
+                        if key_ not in exp:
+                            return (f"{tag}Match object {tuple(m)} is not what buildMM yields for the grammar's literals "
+                                    f"after this history")
             # prediction of C20_partial on the real code
             hyp = o["hyp"]
             for j, d in enumerate(grp["ys"]):
@@ -890,7 +1369,21 @@ class Prop(Check):
                     for a, b in zip(h["foldeq"], h["rxeq"]):
                         hyp_all += 1
                         hyp_ok += bool(h["allic"] and h["wsneutral"] and a and b)
-        return {"texts": len(groups), "accepted_texts": len(acc), "literal_variants": nv,
+        def flips(c):
+            return [e for e in c.get("history", []) + c.get("later", [])
+                    if bool(e["cfg"].get("ignore_case")) != bool(c["cfg"].get("ignore_case"))]
+        esc = _re.compile(r"""(?<!\\)(?:\\\\)*\\[^\\]""")
+        return {"no_mirror_cases": sum(1 for o in obs if "nomirror" in o),
+                "no_mirror_reasons": sorted({o["nomirror"] for o in obs if "nomirror" in o})[:5],
+                "keyword_match_cases": sum(1 for o in obs if any(t.get("k") == "kw" for t in o.get("toks", []))),
+                "history_cases": sum(1 for c in cases if c.get("history") or c.get("later")),
+                "history_cases_ignore_case_flipped": sum(1 for c in cases if flips(c)),
+                "multi_file_cases": sum(1 for c in cases if c.get("files")),
+                "cases_with_escape_sequences": sum(1 for c in cases if esc.search(_re.sub(r"/[^/\n]*/", "", c["grammar"]))),
+                "cases_with_non_keyword_letter_literals": sum(
+                    1 for c in cases if any(l["k"] == "str" and any(has_case(ch) for ch in l["v"])
+                                            and not _re.fullmatch(r"[^\d\W]\w*", l["v"]) for l in c.get("lits", []))),
+                "texts": len(groups), "accepted_texts": len(acc), "literal_variants": nv,
                 "aborted_cases": sum(1 for o in obs if o.get("aborted")),
                 "timeouts": sum(1 for g in groups for d in [g["x"]] + g["ys"]
                                 if "Timeout" in (d["parse"].get("other"), d["load"].get("other"))),
@@ -900,23 +1393,37 @@ class Prop(Check):
                 "grammar_errors": sum(1 for o in obs if "grammar_error" in o),
                 "exhaustive_groups": sum(1 for c, o in zip(cases, obs) if c.get("exhaustive") for g in o.get("groups", [])
                                          if sum(1 for d in g["ys"] if not d["wild"]) in (1, 3, 7, 15, 31, 63)),
-                "streams": {s: sum(1 for c in cases if c.get("stream") == s) for s in ("random", "simple", "link")},
+                "streams": {s: sum(1 for c in cases if c.get("stream") == s) for s in ("random", "simple", "link", "corpus")},
                 "autokwd_cases": sum(1 for c in cases if c["cfg"].get("autokwd")),
                 "ignore_case_off_cases": sum(1 for c in cases if not c["cfg"].get("ignore_case"))}
 
     def shrink(self, case):
+        for key in ("history", "later"):
+            es = case.get(key, [])
+            for k in range(len(es)):
+                c = dict(case)
+                c[key] = es[:k] + es[k + 1:]
+                if not c[key]:
+                    del c[key]
+                yield c
         if len(case["texts"]) > 1:
             for t in case["texts"]:
                 yield dict(case, texts=[t])
+        for key in ("history", "later"):
+            for k, e in enumerate(case.get(key, [])):
+                if e.get("texts"):
+                    c = dict(case)
+                    c[key] = [dict(x, texts=[]) if n == k else x for n, x in enumerate(case[key])]
+                    yield c
         if case.get("nvar", 4) > 1:
             yield dict(case, nvar=1)
 
     def extra_search(self, rng, tier, broken):
         for i in range(150):
             r = rng.fork(i)
-            gtext, texts, lits, textual = simple_grammar(r)
             cfg = {"ignore_case": True}
             if r.chance(0.5):
                 cfg["autokwd"] = True
-            yield {"grammar": gtext, "cfg": cfg, "texts": texts, "lits": lits, "textual": textual, "stream": "simple",
-                   "vseed": r.next(), "nvar": 6}
+            case = self.make_case(r, "simple", cfg, tier, p_history=0.5)
+            case["nvar"] = 6
+            yield case
